@@ -59,7 +59,7 @@ def run(ctx):
     for i in range(300 if th else 60):
         rnd.append(slit_program(rng, rng.choice([1, 2, 3, 4, 5, 8, 16, 40 if th else 12]), rng.choice([1, 5, 30, 200 if th else 60])))
         rnd.append(hmat_program(rng, rng.choice([1, 1, 2, 3, 5, 16]), rng.choice([1, 1, 2, 3, 4, 16]), rng.choice([1, 5, 30, 100])))
-    programs = progs + hm + rnd
+    programs = progs + hm + rnd + [p for p in tc.refusal_programs(rng) if p["kind"] in ("SLIT", "HMAT")]
     ctx.samples = tc.sample(progs, 1) + tc.sample(hm, 1) + tc.sample(rnd, 1)
     ctx.distinct = tc.distinct(programs)
     tc.judge(ctx, programs, "c12")
